@@ -259,7 +259,7 @@ func (s *Sim) run() {
 	k := kern.New(s.src)
 	k.LogOn = s.Opts.Log
 	k.OpYields = 4000
-	k.MaxSteps = 60000
+	k.MaxSteps = 300000
 	s.k = k
 	s.env = NewEnv(k)
 	s.cc = &FakeCC{env: s.env}
@@ -606,6 +606,11 @@ func (s *Sim) exec(i int, o Op) {
 			}
 		case 5:
 			d = 3 * time.Hour
+			for _, c := range s.calls {
+				if c.Invoked && !c.Returned {
+					d = 10 * time.Second // a waiting round-robin pick polls every 100ms: keep the step count sane
+				}
+			}
 			env.Fired["clock_jump_hours"]++
 		}
 		if d < 0 {
@@ -830,7 +835,7 @@ func (s *Sim) pick(ctx context.Context, c *Call) error {
 	c.PubIdx = idx
 	picker := pubs[idx].Picker
 	c.Invoked = true
-	c.InvokeSeq = s.env.add(Event{Kind: EvPickInvoke, Conn: -1, Call: c.ID, Pub: idx})
+	c.InvokeSeq = s.env.add(Event{Kind: EvPickInvoke, Conn: -1, Call: c.ID, Pub: idx, Note: fmt.Sprintf("%s keys=%v pub=%d", c.MethodName, c.ReqKeys, idx)})
 	var res balancer.PickResult
 	var err error
 	note := s.guard(func() {
